@@ -131,7 +131,8 @@ Proof. exact (conj justify_left_inside (conj justify_right_inside (conj center_i
 
 (* every modelled public operation (set_char incl. mirror mode, swap_char, add/remove/raise/lower/duplicate/clear layer,
    toggle visibility, move layer, set layer size, resize buffer, selection set/clear/deselect, justify left/right, center,
-   flip x/y, erase selection, any area operation) is a sound edit *)
+   flip x/y, erase selection, make layer transparent, center_line, justify_line_left/right, erase_row(_to_start/_to_end),
+   erase_column(_to_start/_to_end), any area operation) is a sound edit *)
 Theorem api_sound : forall f, modelled f -> sound_edit op_undo op_redo eqv f.
 Proof. exact modelled_sound. Qed.
 
